@@ -327,6 +327,11 @@ class Model:
         t = body.term(bb)
         if t["k"] != "call":
             return False
+        # releasing a descriptor by close() is as good as wrapping it in a File (which closes it when dropped)
+        if ob["callee"] == "from_raw_fd" and last_seg(body.callee(t)) == "close" and ob["region"] == "shell":
+            args_c = [self.canon(a) for a in body.call_args(bb)]
+            if len(args_c) >= 1 and args_c[0] == ob["args"][0]:
+                return True
         if last_seg(body.callee(t)) != ob["callee"]:
             ci = body.callee_info(t)
             if ci is None or not ci.get("local") or ob["callee"] == "LOOP":
